@@ -1,6 +1,7 @@
 #!/bin/bash
 # dev helper: splice + verify unit P in /var/tmp/vxs
 S=/var/tmp/vxs; D=/verif/.deps
+SD=$(python3 /verif/tools/runner.py --build-support | grep support-dir | cut -d' ' -f2); cp $SD/* $S/
 rm -rf $S/repo && rsync -a --exclude target --exclude .git /repo/ $S/repo/
 cd /verif
 python3 tools/splice.py $S/repo contracts/mpd_protocol/*.vspec > $S/report.json || exit 2
